@@ -76,8 +76,20 @@ class MaskDomain(Domain):
 
 
 def reducers_clause(model, rep, funcs):
-    f = funcs.get(LB + "average")
-    if f is not None:
+    from .generic import overrides_of, delegates_to_super
+    base = funcs.get(LB + "average")
+    defs = [base] + [m for m in overrides_of(model, base) if not delegates_to_super(m)] if base is not None else []
+    for a in (LB + "average_split", LB + "construct_dask"):
+        b = funcs.get(a)
+        if b is None:
+            continue
+        for m in overrides_of(model, b):
+            if delegates_to_super(m):
+                continue
+            rep.instance("OVR", m.loc())
+            rep.ob("OVR", m.anchor, f"`{m.short}` replaces the verified `{b.short}` only by delegating to it", False,
+                   f"{m.short} re-implements {b.name} outside the rules that were checked on {b.short}", node=m.node, fn=m, clause="1 reducers", stmt=f"override {m.short}")
+    for f in defs:
         assigns = local_assignments(f)
         rets = [r for r in walk_no_nested(f.node) if isinstance(r, ast.Return) and r.value is not None]
         rep.instance("SLOT.mean", f.loc())
@@ -238,4 +250,11 @@ def check(model, rep, tier):
             continue
         nacc += accumulator_scope_obligations(model, rep, f, "1 reducers")
     rep.floor("S25", 1, "(LoaderGroup.average_split collects one task list per group)")
+    from .generic import forwarded_parameter_obligations
+    callees = {"construct_dask": 0, "construct_loading_tasks": 0, "_get_output_shape": 0}
+    for a in (LB + "average", LB + "average_split", LB + "construct_dask", LG + "average", LG + "average_split"):
+        f = funcs.get(a)
+        if f is not None:
+            forwarded_parameter_obligations(model, rep, f, "output_shape", callees, "1 reducers")
+    rep.floor("FWDP", 8, "(output_shape handed from the averaging entry points to the stack builders)")
 
